@@ -10,6 +10,12 @@ def q(tier, quick, thorough):
 
 PROPS = {}
 
+# streaming fold machines: TLC binds them to the recursive folds, Apalache proves the invariant inductive
+FOLD_TLC = lambda tier: {"module": "MC_Fold", "spec": "MCSpec", "constants": {"MaxK": q(tier, 6, 9)},
+                         "invariants": ["Agree", "Inductive"], "no_cases": True}
+FOLD_APALACHE = {"module": "TauFold", "apalache": [{"init": "Init", "inv": "IndInv", "length": 0},
+                                                   {"init": "IndInit", "inv": "IndInv", "length": 1}]}
+
 PROPS["C06"] = {
     "title": "Three-valued connectives obey their truth tables",
     "models": lambda tier: [
@@ -19,7 +25,8 @@ PROPS["C06"] = {
          "forms": ["and_chain", "or_chain", "map_group", "seq_group", "not1", "all_seq", "of_seq",
                    "all_map", "of_map", "klist", "kall", "kof", "klist_mix", "kall_mix", "kof_mix", "knot", "mx_not", "nest_and"],
          "workers": q(tier, 4, 8)},
-    ],
+        FOLD_TLC(tier),
+    ] + ([FOLD_APALACHE] if tier == "thorough" else []),
     "gens": lambda tier: [],
     "rules": ["tri_oracle", "tri_both", "oracle", "match_panic", "load_outcome", "load_panic"],
     "chunk": 2000,
@@ -183,7 +190,8 @@ PROPS["C17"] = {
          "invariants": ["OrderFree", "LangOrderFree", "Emit"],
          "forms": ["and_chain", "or_chain", "map_group", "seq_group", "all_seq", "of_seq", "klist", "kall", "kof"],
          "workers": q(tier, 4, 8)},
-    ],
+        FOLD_TLC(tier),
+    ] + ([FOLD_APALACHE] if tier == "thorough" else []),
     "gens": lambda tier: [{"topic": "perm", "n": q(tier, 600, 12000)}],
     "rules": ["den", "alt_fails", "match_panic"],
     "chunk": 500,
